@@ -3664,8 +3664,11 @@ static Node *primary(Token **rest, Token *tok) {
     Node *node = unary(rest, tok->next);
     unevaluated--;
     add_type(node);
+
+    // An operand of variable length array type is evaluated
+    // (C11 6.5.3.4p2).
     if (node->ty->kind == TY_VLA)
-      return new_var_node(node->ty->vla_size, tok);
+      return new_binary(ND_COMMA, node, new_var_node(node->ty->vla_size, tok), tok);
     return new_ulong(node->ty->size, tok);
   }
 
